@@ -25,6 +25,7 @@ import sys
 class Crasher:
     def __init__(self, at: int | None, phase: str, cut: int | None, trace_path: str) -> None:
         self.at, self.phase, self.cut = at, phase, cut
+        self.fsize_state = None
         self.n = 0
         self.trace = builtins.open(trace_path, "a", buffering=1)
 
@@ -94,6 +95,8 @@ def install_journal(cr: Crasher):
 
         def write(self, b):
             i = cr.step("write", len(b))
+            if cr.at == i and cr.phase == "fsize":
+                cr.fsize_state = "armed"     # the raw layer will accept only `cut` more bytes
             if cr.at == i and cr.phase == "cut":
                 self._f.write(b[: cr.cut])
                 self._f.flush()
@@ -122,11 +125,48 @@ def install_journal(cr: Crasher):
             cr.after(i)
             return r
 
+    import errno
+    import io
+
+    class ShortRaw(io.RawIOBase):
+        """Raw append-only file whose write(2) comes back SHORT once (file-size limit / full disk reached mid-record) and
+        fails with EFBIG afterwards - the OS contract for raw writes; a BufferedWriter on top retries and raises."""
+
+        def __init__(self, path):
+            self._fd = real_os.open(path, real_os.O_WRONLY | real_os.O_APPEND | real_os.O_CREAT, 0o644)
+
+        def writable(self):
+            return True
+
+        def fileno(self):
+            return self._fd
+
+        def write(self, b):
+            b = bytes(b)
+            if cr.fsize_state == "armed":
+                cr.fsize_state = "full"
+                return real_os.write(self._fd, b[: cr.cut])
+            if cr.fsize_state == "full":
+                raise OSError(errno.EFBIG, "File too large (injected)")
+            return real_os.write(self._fd, b)
+
+        def close(self):
+            if not self.closed:
+                try:
+                    real_os.close(self._fd)
+                finally:
+                    super().close()
+
     def open_proxy(path, mode="r", *a, **k):
         if mode == "rb":
             return builtins.open(path, mode, *a, **k)
         i = cr.step("open:" + mode)
-        f = builtins.open(path, mode, *a, **k)
+        if cr.phase == "fsize" and mode == "ab":
+            raw = ShortRaw(path)
+            buffering = k.get("buffering", a[0] if a else -1)
+            f = raw if buffering == 0 else io.BufferedWriter(raw)
+        else:
+            f = builtins.open(path, mode, *a, **k)
         cr.after(i)
         return FileProxy(f, mode)
 
@@ -196,6 +236,12 @@ def child_main(spec_path: str) -> None:
         op = tuple(op)
         ack.write(json.dumps(["call", idx]) + "\n")
         out = X.run_impl(storage, op, bind)
+        if cr.fsize_state == "full":
+            # the file-size limit was hit during this call: a call that raised is not acknowledged, one that returned is;
+            # either way the writer stops here (everything it would write next fails)
+            if out[0] == "ok":
+                ack.write(json.dumps(["ret", idx, "ok", out[1] if isinstance(out[1], (int, bool, type(None))) else None]) + "\n")
+            cr.die()
         if out[0] == "ok" and op[0] == "create_new_study":
             bind.bind_study(spec["expect_ids"][idx], out[1])
         if out[0] == "ok" and op[0] == "create_new_trial":
